@@ -1,6 +1,6 @@
 (* C11 — pool accounting and bond-denom supply follow the admin's power assignments. *)
 From stdpp Require Import gmap.
-Require Import Model.Base Model.State Model.Staking Model.Slashing Model.Poa proofs.L1Effects.
+Require Import Model.Base Model.State Model.Staking Model.Slashing Model.Poa Model.App proofs.L1Effects proofs.InvHistory proofs.InvPools.
 
 (* every PoA message ends with this reconciliation: afterwards the bonded pool holds exactly the tokens of the
    bonded validators, the not-bonded pool is untouched, and the supply moved by exactly what the pool moved
@@ -12,3 +12,18 @@ Theorem C11_pool_reconciled : forall c c',
   notbonded_pool (bk c') = notbonded_pool (bk c) /\
   supply (bk c') - supply (bk c) = bonded_pool (bk c') - bonded_pool (bk c).
 Proof. exact update_bonded_pool_spec. Qed.
+
+(* after every block of every history — admissions, re-powerings, removals, downtime slashes, jailings, unjailings,
+   validators leaving and re-entering the set, unbonding periods maturing, in any order — the bonded pool holds
+   exactly the tokens of the validators in the Bonded status, and the not-bonded pool covers the tokens of all
+   the others (it may hold more: nothing PoA does ever takes from it) *)
+Theorem C11_pools_match_validators_in_every_reachable_state : forall g bs,
+  wf_genesis g ->
+  let c := w_chain (run_world (init_world g) bs) in
+  bonded_pool (bk c) = bonded_tokens (stk c) /\ other_tokens (stk c) <= notbonded_pool (bk c).
+Proof. intros g bs Hg c. destruct (reachable_all g bs Hg) as (_ & _ & H). exact H. Qed.
+
+(* so the transfer between the pools that ends x/staking's validator-set update always finds its funds *)
+Theorem C11_pool_transfer_never_short : forall g bs,
+  wf_genesis g -> apply_valset_updates (w_chain (run_world (init_world g) bs)) <> EBHalt 4.
+Proof. intros g bs Hg. destruct (reachable_all g bs Hg) as (HC & _ & HB). apply apply_valset_updates_funds; assumption. Qed.
